@@ -30,55 +30,49 @@ static inline u64 spec_floor_pow2(u64 x, unsigned vb) {
   for (unsigned k = 0; k < vb; k++) if ((1ull << k) <= x) r = 1ull << k;
   return r;
 }
-/* r is a power of two and no power of two 2^0 .. 2^64 is strictly closer to x (ties: either neighbour) */
+/* r is a power of two and no power of two 2^0 .. 2^64 is strictly closer to x (ties: either neighbour).  x >= 1; all
+ * distances fit u64: |2^k - x| < 2^64 for k <= 63, and 2^64 - x is the two's complement of x. */
 static inline int spec_is_nearest_pow2(u64 r, u64 x) {
-  int ok = spec_is_pow2(r, 64);
-  u128 dr = r > x ? (u128)(r - x) : (u128)(x - r);
-  for (unsigned k = 0; k <= 64; k++) {
-    u128 p = (u128)1 << k;
-    u128 d = p > (u128)x ? p - (u128)x : (u128)x - p;
+  int ok = spec_is_pow2(r, 64) && x != 0;
+  u64 dr = r > x ? r - x : x - r;
+  for (unsigned k = 0; k < 64; k++) {
+    u64 p = 1ull << k;
+    u64 d = p > x ? p - x : x - p;
     if (d < dr) ok = 0;
   }
+  if ((u64)(0 - x) < dr) ok = 0; /* the candidate 2^64 */
   return ok;
 }
 /* exact integer logarithm: r == floor(log2(x)) for x > 0, i.e. 2^r <= x < 2^(r+1) */
 static inline int spec_is_floor_log2(u64 r, u64 x) { return r < 64 && (x >> r) == 1; }
 
 /* ------------------------------------------------------------------ multiples (m > 0) */
-static inline int spec_is_multiple(s64 x, s64 m) { return x % m == 0; }
-/* r is the largest multiple of m that is <= x */
-static inline int spec_is_floor_multiple(s64 r, s64 x, s64 m) { return r % m == 0 && r <= x && x - r < m; }
-/* r is the smallest multiple of m that is >= x */
-static inline int spec_is_ceil_multiple(s64 r, s64 x, s64 m) { return r % m == 0 && r >= x && r - x < m; }
-/* r is a multiple of m and no multiple of m is strictly closer to x (ties: either neighbour) */
-static inline int spec_is_nearest_multiple(s64 r, s64 x, s64 m) {
-  s64 d = r > x ? r - x : x - r;
-  return r % m == 0 && 2 * d <= m;
-}
-/* is the answer representable in [lo, hi] (lo <= 0 <= hi, the range of the type)?  The largest multiple of m that is
- * <= hi is hi - hi % m, the smallest one that is >= lo is lo - lo % m (C remainder has the sign of the dividend). */
-static inline int spec_ceil_multiple_fits(s64 x, s64 m, s64 hi) { return x <= hi - hi % m; }
-static inline int spec_floor_multiple_fits(s64 x, s64 m, s64 lo) { return x >= lo - lo % m; }
-static inline int spec_nearest_multiple_fits(s64 x, s64 m, s64 lo, s64 hi) {
-  s64 rem = ((x % m) + m) % m;          /* distance down to the floor multiple, 0 <= rem < m */
-  s64 up = rem == 0 ? 0 : m - rem;      /* distance up to the ceil multiple */
-  return (rem <= up && x - rem >= lo) || (up <= rem && x + up <= hi);
-}
-/* the same in 128-bit arithmetic, for the 64-bit element types */
-static inline int spec_is_multiple_w(s128 x, s128 m) { return x % m == 0; }
-static inline int spec_is_floor_multiple_w(s128 r, s128 x, s128 m) { return r % m == 0 && r <= x && x - r < m; }
-static inline int spec_is_ceil_multiple_w(s128 r, s128 x, s128 m) { return r % m == 0 && r >= x && r - x < m; }
-static inline int spec_is_nearest_multiple_w(s128 r, s128 x, s128 m) {
-  s128 d = r > x ? r - x : x - r;
-  return r % m == 0 && 2 * d <= m;
-}
-static inline int spec_ceil_multiple_fits_w(s128 x, s128 m, s128 hi) { return x <= hi - hi % m; }
-static inline int spec_floor_multiple_fits_w(s128 x, s128 m, s128 lo) { return x >= lo - lo % m; }
-static inline int spec_nearest_multiple_fits_w(s128 x, s128 m, s128 lo, s128 hi) {
-  s128 rem = ((x % m) + m) % m;
-  s128 up = rem == 0 ? 0 : m - rem;
-  return (rem <= up && x - rem >= lo) || (up <= rem && x + up <= hi);
-}
+/* One family per arithmetic width so that no intermediate result can overflow and the narrow types stay cheap for the
+ * solver: suffix _n = int (8/16-bit element types), no suffix = s64 (32-bit types), _w = s128 (64-bit types).
+ *  is_multiple(x, m)            m divides x
+ *  is_floor_multiple(r, x, m)   r is the largest multiple of m that is <= x
+ *  is_ceil_multiple(r, x, m)    r is the smallest multiple of m that is >= x
+ *  is_nearest_multiple(r, x, m) r is a multiple of m and no multiple of m is strictly closer to x (ties: either neighbour)
+ *  *_fits: is the answer representable in [lo, hi] (lo <= 0 <= hi, the range of the type)?  The largest multiple of m that
+ *  is <= hi is hi - hi % m, the smallest one that is >= lo is lo - lo % m (C remainder has the sign of the dividend). */
+#define SPEC_MULTIPLE_FAMILY(SUF, T)                                                                                   \
+  static inline int spec_is_multiple##SUF(T x, T m) { return x % m == 0; }                                             \
+  static inline int spec_is_floor_multiple##SUF(T r, T x, T m) { return r % m == 0 && r <= x && x - r < m; }            \
+  static inline int spec_is_ceil_multiple##SUF(T r, T x, T m) { return r % m == 0 && r >= x && r - x < m; }             \
+  static inline int spec_is_nearest_multiple##SUF(T r, T x, T m) {                                                     \
+    T d = r > x ? r - x : x - r;                                                                                       \
+    return r % m == 0 && 2 * d <= m;                                                                                   \
+  }                                                                                                                    \
+  static inline int spec_ceil_multiple_fits##SUF(T x, T m, T hi) { return x <= hi - hi % m; }                          \
+  static inline int spec_floor_multiple_fits##SUF(T x, T m, T lo) { return x >= lo - lo % m; }                         \
+  static inline int spec_nearest_multiple_fits##SUF(T x, T m, T lo, T hi) {                                            \
+    T rem = ((x % m) + m) % m;     /* distance down to the floor multiple, 0 <= rem < m */                             \
+    T up = rem == 0 ? 0 : m - rem; /* distance up to the ceil multiple */                                              \
+    return (rem <= up && x - rem >= lo) || (up <= rem && x + up <= hi);                                                \
+  }
+SPEC_MULTIPLE_FAMILY(_n, s32)
+SPEC_MULTIPLE_FAMILY(, s64)
+SPEC_MULTIPLE_FAMILY(_w, s128)
 /* floored modulus of the gtx_integer doc comment, x - y * floor(x / y), y != 0: r is congruent to x modulo y and lies
  * in [0, y) for y > 0, in (y, 0] for y < 0 */
 static inline int spec_is_floor_mod(s64 r, s64 x, s64 y) {
